@@ -16,6 +16,7 @@ type KnownFinding struct {
 	Status       string `json:"status"` // known | fixed
 	What         string `json:"what"`
 	WitnessClass string `json:"witness_class,omitempty"` // SMT-LIB boolean over the obligation's model constants
+	ClassSpec    string `json:"class_spec,omitempty"`    // for function obligations: spec-language condition over the entry state; the obligation must still hold outside it
 	Replay       string `json:"replay,omitempty"`        // template under /verif/replay
 	Commit       string `json:"commit,omitempty"`
 }
